@@ -140,7 +140,16 @@ type fakeProto struct {
 func (self *fakeProto) GetDBId() uint8                                  { return self.dbId }
 func (self *fakeProto) GetLockId() [16]byte                             { return self.lockId }
 func (self *fakeProto) GetTimeout() uint16                              { return self.timeout }
-func (self *fakeProto) GetLockCommand() *protocol.LockCommand           { return &protocol.LockCommand{} }
+// a recycled command as the server's free list hands it out: identity fields of its previous use are still there
+// (the converter must overwrite every byte of LockId / LockKey itself)
+func (self *fakeProto) GetLockCommand() *protocol.LockCommand {
+	c := &protocol.LockCommand{}
+	for i := range c.LockId {
+		c.LockId[i] = 0xaa
+		c.LockKey[i] = 0xbb
+	}
+	return c
+}
 func (self *fakeProto) FreeLockCommand(_ *protocol.LockCommand) error   { return nil }
 func (self *fakeProto) GetParser() *protocol.TextParser                 { return self.parser }
 
@@ -282,6 +291,9 @@ func main() {
 			case "K":
 				s := string(unhex(f[1]))
 				var id [16]byte
+				for i := range id {
+					id[i] = 0xaa // the destination is a field of a recycled command: it must be overwritten completely
+				}
 				protocol.NewTextCommandConverter().ConvertArgId2LockId(s, &id)
 				key := protocol.ConvertString2LockKey(s)
 				fmt.Fprintln(w, hex.EncodeToString(id[:])+" "+hex.EncodeToString(key[:]))
